@@ -52,6 +52,10 @@ EXTREME = [
     "10 IF A THEN " * 40 + "B=1", "10 " + "IF A THEN B=1 ELSE " * 30 + "B=2", "10 " + "FOR I=1 TO 2:" * 50 + "NEXT:" * 49 + "NEXT",
     "10 DATA " + ",".join(["X"] * 500), "10 DIM " + ",".join("A%d(1)" % i for i in range(10)), "10 A(1,2,3,4,5,6,7,8)=1",
     "10 ON A GOTO " + ",".join(["10"] * 300),
+    "10 DIM A(&H0)", "10 DIM B$(&H0,&H10)", "10 DIM C(3,& H 0,7)", "10 DIM D(&H0,&H0,&H0),E$(&H00)", "10 DIM A(0,5),B$(3,0,4)", "10 DIM A(00)",
+    "10 DIM A(&H7FFF)", "10 DIM A(32767)", "10 DIM A(1.5)", "10 DIM A(-1)", "10 DIM A(&HFFFF)", "10 FOR I=&H0 TO &H0 STEP &H0:NEXT",
+    "10 ON &H0 GOTO 10", "10 PRINT@&H0,&H0", "10 POKE &H0,&H0", "10 A=&H0+&H00+&H000+&H0000+&H00000", "10 DATA &H0,&H00\n20 READ A,B",
+    "10 CLS &H0:HCOLOR &H0,&H0:HSCREEN &H0:WIDTH &H0", "10 A$=STRING$(&H0,\"X\")+LEFT$(\"A\",&H0)", "10 SOUND &H0,&H0",
 ]
 
 def scaled_inputs():
